@@ -66,8 +66,9 @@ PROPERTIES = {
         "technique": "structural-invariant monitor over enumerated configurations",
         "exhaustive": True,
         "rule": "C17: tree consistency",
-        "anchors": ["internal/tree/tree.go", "internal/tree/shuffle.go", "protocol/leaderrotation/treeleader.go"],
-        "parts": [part("C17.tree", shards={"quick": 8, "thorough": 16}, floor=1000)],
+        "anchors": ["internal/tree/tree.go", "internal/tree/shuffle.go", "protocol/leaderrotation/treeleader.go", "protocol/comm/kauri.go"],
+        "parts": [part("C17.tree", shards={"quick": 8, "thorough": 16}, floor=1000),
+                  part("C17.kauri", shards={"quick": 8, "thorough": 16}, floor=60)],
     },
     "C16": {
         "level": "exploration",
